@@ -28,3 +28,66 @@ pub fn obj(x: f64) -> SingleObjective {
 pub fn tagged(tag: u8, o: f64) -> Individual<TagP> {
     Individual::new(tag, obj(o))
 }
+
+/// Real-vector problem with an explicit domain (one half-open range per dimension).
+pub struct RealP {
+    pub dom: Vec<Range<f64>>,
+}
+impl RealP {
+    pub fn d1(a: f64, b: f64) -> Self {
+        RealP { dom: vec![a..b] }
+    }
+    pub fn d2(a: f64, b: f64, c: f64, d: f64) -> Self {
+        RealP { dom: vec![a..b, c..d] }
+    }
+}
+impl Problem for RealP {
+    type Encoding = Vec<f64>;
+    type Objective = SingleObjective;
+    fn name(&self) -> &str {
+        "RealP"
+    }
+}
+impl VectorProblem for RealP {
+    type Element = f64;
+    fn dimension(&self) -> usize {
+        self.dom.len()
+    }
+}
+impl LimitedVectorProblem for RealP {
+    fn domain(&self) -> Vec<Range<f64>> {
+        self.dom.clone()
+    }
+}
+
+/// Permutation problem of a given dimension.
+pub struct PermP(pub usize);
+impl Problem for PermP {
+    type Encoding = Vec<usize>;
+    type Objective = SingleObjective;
+    fn name(&self) -> &str {
+        "PermP"
+    }
+}
+impl VectorProblem for PermP {
+    type Element = usize;
+    fn dimension(&self) -> usize {
+        self.0
+    }
+}
+
+/// Bitstring problem of a given dimension.
+pub struct BitP(pub usize);
+impl Problem for BitP {
+    type Encoding = Vec<bool>;
+    type Objective = SingleObjective;
+    fn name(&self) -> &str {
+        "BitP"
+    }
+}
+impl VectorProblem for BitP {
+    type Element = bool;
+    fn dimension(&self) -> usize {
+        self.0
+    }
+}
